@@ -567,6 +567,37 @@ func history(run, steps, conc int, seed int64) ([]map[string]any, error) {
 				"exact": bytes.Equal(d, concatOcc(rend, ids))})
 		}
 	}
+	// one post while the board cannot be saved (the name of its temporary file is occupied by a directory), then a
+	// read by another client.  Observed only; Trace_Board!FaultPostEv says what the statement requires of it.
+	if total < 58000-reserve {
+		tmp := filepath.Join(w.Config, "MessageBoard.txt.tmp")
+		if err := os.Mkdir(tmp, 0755); err == nil {
+			next++
+			body := []byte(fmt.Sprintf("<<P%d>> unsaved", next))
+			id := clients[0].Send(sim.TOldPostNews, sim.Fld(sim.FData, body))
+			rep, perr := clients[0].WaitReply(id, 2*time.Second)
+			_ = os.Remove(tmp)
+			rrep, rerr := clients[1].Request(sim.TGetMsgs)
+			d, _ := rrep.Get(sim.FData)
+			disk, _ := os.ReadFile(filepath.Join(w.Config, "MessageBoard.txt"))
+			// the rendering of the unsaved post, if it shows up in what the reader got
+			if ids := postsIn(d); len(ids) > 0 && ids[0] == next {
+				if i := bytes.Index(d, []byte("__________________________________________________________\r")); i >= 0 {
+					rend[next] = append(rend[next], append([]byte(nil), d[:i+59]...))
+				}
+			}
+			evs = append(evs, map[string]any{"op": "faultpost", "run": run, "a": next, "ok": perr == nil && rep.Err == 0, "readOk": rerr == nil && rrep.Err == 0,
+				"after": postsIn(d), "exact": bytes.Equal(d, concatOcc(rend, postsIn(d))), "diskAfter": postsIn(disk)})
+			if rerr != nil {
+				return evs, nil // the board is not served any more: the history ends here
+			}
+			for _, x := range clients {
+				x.Settle()
+				x.Drain()
+			}
+			total = len(disk) + 200
+		}
+	}
 	// free-running phase: concurrent readers, posters and logins on the real processOutbox-less pump is not
 	// concurrent enough; use raw goroutine clients and judge each completed read against the versions current
 	// during it (version counter read before and after by the driver).
@@ -575,6 +606,11 @@ func history(run, steps, conc int, seed int64) ([]map[string]any, error) {
 		return postsIn(disk)
 	}
 	startText := cur()
+	if rep, err := clients[1].Request(sim.TGetMsgs); err == nil {
+		// the board as the server holds it (a post whose save failed is in memory only)
+		d, _ := rep.Get(sim.FData)
+		startText = postsIn(d)
+	}
 	var mu sync.Mutex
 	datas := map[int][]byte{}
 	var cevs []map[string]any
